@@ -262,6 +262,7 @@ def r13_2(chk):
                     if not hits:
                         chk.ok("R13.2", key(m, q, "identifier ops"), m.loc(fn), "only exact / anchored identifier operations")
     base_membership(chk, "R13.2")
+    override_membership(chk, "R13.2")
     chk.floor("R13.2", 10, "methods taking an identifier in the two store modules")
     probe = ast.parse("def f(self, unique_id):\n    for m in self:\n        if m.unique_id.endswith(unique_id): pass\n").body[0]
     idn = derived_names(probe, {"unique_id"})
@@ -308,6 +309,19 @@ def r13_4(chk):
     missing = ins[1] - upd[1]
     chk.decide(not missing, "R13.4", key(m, "DataStoreSqlite._write", "UPDATE vs INSERT columns"), m.loc(upd[0]), f"both branches persist {sorted(ins[1])}", f"the UPDATE branch does not persist {sorted(missing)}: rewriting an existing identifier keeps the old value")
     chk.floor("R13.4", 1, "one sibling pair")
+
+
+def override_membership(chk, rule):
+    """an override of __contains__ normalises the identifier and then asks the base class ONE question"""
+    m = chk.repo.module(DS)
+    for cname in ("DataStoreDirectory",):
+        ci = m.cls(cname)
+        fn = ci.methods.get("__contains__")
+        if not isinstance(fn, ast.FunctionDef):
+            continue
+        rets = [r for r in walk_no_nested(fn) if isinstance(r, ast.Return) and r.value is not None]
+        bad = [r for r in rets if not (isinstance(r.value, ast.Call) and isinstance(r.value.func, ast.Attribute) and r.value.func.attr == "__contains__" and isinstance(r.value.func.value, ast.Call) and call_name(r.value.func.value) == "super")]
+        chk.decide(bool(rets) and not bad, rule, key(m, f"{cname}.__contains__", "one lookup under one name"), m.loc(bad[0] if bad else fn), "every return is a single super().__contains__(<normalised item>)", f"`{norm(bad[0])[:90] if bad else ''}` answers membership with more than one lookup (or none through the base class): an identifier is 'in' the store when only a record filed under another name exists -- e.g. not_completed/<id>.json -- and the append-mode write of a re-run is refused, so apply_to raises instead of recording the failure")
 
 
 def check_identifier_form(chk, rule):
